@@ -90,9 +90,9 @@ theorem mem_finalOrder (size : Nat) (ends : List Ctx) (c : Ctx) : c ∈ finalOrd
 theorem upstream_witness (k0 : String) (rest : List String) (hk : k0 ≠ "__task_execution") (outs : List Ctx)
     (hs : ∀ c ∈ outs, ShapeOK k0 rest c) (x : Val) (hx : getPath (upstream outs).data k0 rest = some x) :
     ∃ c ∈ outs, getPath c.data k0 rest = some x ∧
-      ver c.vers (keyOf k0 rest) = ver (upstream outs).vers (keyOf k0 rest) := by
+      ver c.vers (keyOf (esc k0) rest) = ver (upstream outs).vers (keyOf (esc k0) rest) := by
   let W : Ctx → Prop := fun u => ShapeOK k0 rest u ∧ ∀ x, getPath u.data k0 rest = some x →
-    ∃ c ∈ outs, getPath c.data k0 rest = some x ∧ ver c.vers (keyOf k0 rest) = ver u.vers (keyOf k0 rest)
+    ∃ c ∈ outs, getPath c.data k0 rest = some x ∧ ver c.vers (keyOf (esc k0) rest) = ver u.vers (keyOf (esc k0) rest)
   have hW : W (upstream outs) := by
     apply upstream_ind W
     · exact ⟨shapeOK_empty k0 rest, fun x hx => by simp [getPath] at hx⟩
@@ -120,7 +120,7 @@ theorem upstream_witness (k0 : String) (rest : List String) (hk : k0 ≠ "__task
         | some x' =>
           rw [hgr, hgl] at hx
           simp only [cellVal] at hx
-          by_cases hc : ver r.vers (keyOf k0 rest) > ver l.vers (keyOf k0 rest)
+          by_cases hc : ver r.vers (keyOf (esc k0) rest) > ver l.vers (keyOf (esc k0) rest)
           · simp only [hc, if_true] at hx
             have hxe : y = x := Option.some.inj hx
             obtain ⟨c, hcm, h1, h2⟩ := wr y hgr
@@ -186,22 +186,22 @@ theorem upstream_present (k0 : String) (rest : List String) (hk : k0 ≠ "__task
 theorem upstream_order_independent (k0 : String) (rest : List String) (hk : k0 ≠ "__task_execution")
     (l1 l2 : List Ctx) (hmem : ∀ c, c ∈ l1 ↔ c ∈ l2) (hs : ∀ c ∈ l1, ShapeOK k0 rest c)
     (hcons : ∀ c1 ∈ l1, ∀ c2 ∈ l1, ∀ x1 x2, getPath c1.data k0 rest = some x1 → getPath c2.data k0 rest = some x2 →
-      ver c1.vers (keyOf k0 rest) = ver c2.vers (keyOf k0 rest) → x1 = x2) :
+      ver c1.vers (keyOf (esc k0) rest) = ver c2.vers (keyOf (esc k0) rest) → x1 = x2) :
     getPath (upstream l1).data k0 rest = getPath (upstream l2).data k0 rest ∧
-    ver (upstream l1).vers (keyOf k0 rest) = ver (upstream l2).vers (keyOf k0 rest) := by
+    ver (upstream l1).vers (keyOf (esc k0) rest) = ver (upstream l2).vers (keyOf (esc k0) rest) := by
   have hs2 : ∀ c ∈ l2, ShapeOK k0 rest c := fun c hc => hs c ((hmem c).mpr hc)
   have hu1 : ∀ c ∈ l1, UniqueKeys c.vers := fun c hc => (hs c hc).2.1
   have hu2 : ∀ c ∈ l2, UniqueKeys c.vers := fun c hc => (hs2 c hc).2.1
-  have hv : ver (upstream l1).vers (keyOf k0 rest) = ver (upstream l2).vers (keyOf k0 rest) := by
-    have a1 := ver_upstream_attained (keyOf k0 rest) l1 hu1
-    have a2 := ver_upstream_attained (keyOf k0 rest) l2 hu2
-    have g1 := ver_upstream_ge (keyOf k0 rest) l1 hu1
-    have g2 := ver_upstream_ge (keyOf k0 rest) l2 hu2
-    have le12 : ver (upstream l1).vers (keyOf k0 rest) ≤ ver (upstream l2).vers (keyOf k0 rest) := by
+  have hv : ver (upstream l1).vers (keyOf (esc k0) rest) = ver (upstream l2).vers (keyOf (esc k0) rest) := by
+    have a1 := ver_upstream_attained (keyOf (esc k0) rest) l1 hu1
+    have a2 := ver_upstream_attained (keyOf (esc k0) rest) l2 hu2
+    have g1 := ver_upstream_ge (keyOf (esc k0) rest) l1 hu1
+    have g2 := ver_upstream_ge (keyOf (esc k0) rest) l2 hu2
+    have le12 : ver (upstream l1).vers (keyOf (esc k0) rest) ≤ ver (upstream l2).vers (keyOf (esc k0) rest) := by
       rcases a1 with z | ⟨c, hc, e⟩
       · omega
       · have := g2 c ((hmem c).mp hc); omega
-    have le21 : ver (upstream l2).vers (keyOf k0 rest) ≤ ver (upstream l1).vers (keyOf k0 rest) := by
+    have le21 : ver (upstream l2).vers (keyOf (esc k0) rest) ≤ ver (upstream l1).vers (keyOf (esc k0) rest) := by
       rcases a2 with z | ⟨c, hc, e⟩
       · omega
       · have := g1 c ((hmem c).mpr hc); omega
